@@ -36,8 +36,9 @@ FLOORS = {'tree:2ns+attr': (0.10, 'tree:config'), 'tree:comment-or-pi': (0.30, '
           'tree:empty-text': (0.10, 'tree:config'), 'tree:doc-misc': (0.10, 'tree:config'),
           'ops:attr-or-ns-operand': (0.10, 'ops:case'), 'tree:et-xml-in-namespaces': (0.08, 'tree:config'),
           'tree:et-namespaces-dict-extended-after-build': (0.06, 'tree:config'),
-          'tree:lxml-elem-root/fragment-None/post': (0.01, 'tree:config'), 'ops:raw-objects': (0.35, 'ops:case'),
-          'ops:raw-comment-or-pi-operand': (0.08, 'ops:case')}
+          'tree:lxml-elem-root/fragment-None/post': (0.01, 'tree:config'), 'ops:raw-objects': (0.30, 'ops:case'),
+          'ops:raw-comment-or-pi-operand': (0.06, 'ops:case'),
+          'ops:path-operands-from-inner-context': (0.06, 'ops:case')}
 
 NS_ARGS = [None, {}, {'p': 'urn:p'}, {'': 'urn:d'}, {'': 'urn:d', 'p': 'urn:p', 'q': 'urn:q'}, {'xml': gx.XML_NS},
            {'xml': gx.XML_NS, 'p': 'urn:p', 'q': 'urn:q', 's': 'urn:p'},
@@ -64,7 +65,9 @@ def _tree_cases(max_elems):
 
 
 _idx = st.integers(0, 400)
-_OPS = ['is', '<<', '>>', 'union', '|', 'intersect', 'except', 'root', 'innermost', 'outermost', 'var-parent', 'item-parent']
+_OPS = ['is', '<<', '>>', 'union', '|', 'intersect', 'except', 'root', 'innermost', 'outermost', 'var-parent', 'item-parent',
+        # (ABSOLUTE-PATH op RELATIVE-PATH) evaluated with a context item inside the tree: operands are independent
+        'path-union', 'path-|', 'path-union', 'path-intersect', 'path-except']
 
 
 def _ops_cases(max_elems):
@@ -385,6 +388,45 @@ def _ref_op(ref, op, A, B):
     return sorted(res.values(), key=lambda x: x.order)
 
 
+def _path_operands(o):
+    from vp.gen.c01_paths import _ABS_OPERANDS, _REL_OPERANDS
+    ia = o['B'][0] if o['B'] else 0
+    ib = o['B'][1] if len(o['B']) > 1 else 3
+    a, r = _ABS_OPERANDS[ia % len(_ABS_OPERANDS)], _REL_OPERANDS[ib % len(_REL_OPERANDS)]
+    return (r, a) if (ia + ib) % 4 == 0 else (a, r)
+
+
+def _path_want(spec, tc, ref, cache, op, first, second, ctx_node):
+    """reference result (nodes of `ref`) of (first op second) from ctx_node; None: no verdict"""
+    if tc['ctx_dummy']:
+        # Element root with fragment unset: '/' is the hidden implicit document
+        if 'refc' not in cache:
+            refc = xdm.ref_tree(spec, tc, for_context=True)
+            for rn in [n for n in ref.nodes if n.kind == 'element']:
+                refc.adopt_order((0,) + rn.addr, [x.name for x in rn.nss], [x.name for x in rn.attrs])
+            refc.renumber()
+            cache['refc'] = refc
+        tree, ctx = cache['refc'], cache['refc'].by_addr[(0,) + ctx_node.addr]
+        back = lambda n: ref.by_addr[n.addr[1:]]
+    elif ref.top.kind == 'element':
+        return None             # fragment: absolute paths on an element-topped tree are C01's assumption, not judged here
+    else:
+        tree, ctx, back = ref, ctx_node, (lambda n: n)
+    ev = xdm.Evaluator(tree)
+    r1, i1 = ev.evaluate(first, ctx)
+    r2, i2 = ev.evaluate(second, ctx)
+    if tc['ctx_dummy'] and (i1.doc_upward or i2.doc_upward):
+        return None
+    s2 = {id(x) for x in r2}
+    if op in ('union', '|'):
+        res = {id(x): x for x in r1 + r2}
+    elif op == 'intersect':
+        res = {id(x): x for x in r1 if id(x) in s2}
+    else:
+        res = {id(x): x for x in r1 if id(x) not in s2}
+    return [back(n) for n in sorted(res.values(), key=lambda x: x.order) if n.kind != 'document' or not tc['ctx_dummy']]
+
+
 def _render_op(op):
     if op == 'var-parent':
         return '$A/..'
@@ -421,6 +463,7 @@ def judge_ops(case, rec: Recorder | None = None) -> list[Disc]:
         return discs
     be = cfg['backend']
     top0 = top
+    cache = {}
     for o in case['ops']:
         op = o['op']
         A = [ref.nodes[i % len(ref.nodes)] for i in o['A']]
@@ -431,12 +474,24 @@ def judge_ops(case, rec: Recorder | None = None) -> list[Disc]:
             A = A[:1]
         if op == 'item-parent':
             A = A[:1] or [ref.top]
+        pathop = op.startswith('path-')
+        if pathop:
+            A, B = A[:1] or [ref.root], []
         raw = bool(o.get('raw'))
         if raw:
             # every operand becomes a node that the caller can hold as an etree object
             A, B = [_rawable(ref, cfg, x) for x in A], [_rawable(ref, cfg, x) for x in B]
-        want = _ref_op(ref, op, A, B)
-        expr = _render_op(op)
+        if pathop:
+            first, second = _path_operands(o)
+            want = _path_want(spec, tc, ref, cache, op[5:], first, second, A[0])
+            expr = '(%s %s %s)' % (xdm.render(first), op[5:], xdm.render(second))
+            if want is None:
+                if rec is not None:
+                    rec.cls('ops:path-op-no-verdict')
+                continue
+        else:
+            want = _ref_op(ref, op, A, B)
+            expr = _render_op(op)
         kinds = ('raw-objects' if raw else 'with-attr-or-ns' if any(x.kind in ('attribute', 'namespace') for x in A + B)
                  else 'tree-nodes-only')
         try:
@@ -446,16 +501,16 @@ def judge_ops(case, rec: Recorder | None = None) -> list[Disc]:
                 shift = () if ref.top.kind == 'document' else (b.n_pre,)
                 obj = lambda x: b.tree if x.kind == 'document' else b.by_addr[shift + x.addr]
                 root_obj = b.tree if cfg['rootkind'] == 'doc' else b.root
-                kw = {'item': obj(A[0])} if op == 'item-parent' else {}
+                kw = {'item': obj(A[0])} if op == 'item-parent' or pathop else {}
                 ctx = XPathContext(root_obj, namespaces=ns, fragment=cfg['fragment'],
                                    variables={'A': [obj(x) for x in A], 'B': [obj(x) for x in B]}, **kw)
                 top = ctx.root
             else:
                 top = top0
                 nA, nB = [ep_find(top, x.addr) for x in A], [ep_find(top, x.addr) for x in B]
-                kw = {'item': nA[0]} if op == 'item-parent' else {}
+                kw = {'item': nA[0]} if op == 'item-parent' or pathop else {}
                 ctx = XPathContext(top, variables={'A': nA, 'B': nB}, **kw)
-            got = list(tok.select(ctx))
+            got = [x for x in tok.select(ctx) if not (x is ctx.document and x is not top)]      # hidden implicit document
         except ElementPathError as e:
             got = 'error'
             if want not in ('error', 'error-or-empty'):
@@ -491,6 +546,8 @@ def judge_ops(case, rec: Recorder | None = None) -> list[Disc]:
             classes = ['ops:case', f'ops:{op}']
             if any(x.kind in ('attribute', 'namespace') for x in A + B):
                 classes.append('ops:attr-or-ns-operand')
+            if pathop and A[0] is not ref.top and A[0] is not ref.root:
+                classes.append('ops:path-operands-from-inner-context')
             if raw:
                 classes.append('ops:raw-objects')
                 if any(x.kind in ('comment', 'pi') for x in A + B):
